@@ -164,6 +164,30 @@ func mutMatrix(args []string) {
 			place(f, ct, allOps, allOps, false)
 		}
 	}
+	// an inner / last filter whose script reads the root ($.q), for every operation; unions with absent members at every position
+	for _, q := range []jl.Node{jl.Int(11), jl.Int(99), jl.Str("s1")} {
+		for _, key := range []string{"a", "b"} {
+			for _, ct := range []cont{{"arr", 2}, {"arr", 4}, {"obj", 3}} {
+				c := &ctr{n: 100}
+				d := mkCont(ct, "obj", c)
+				f := jl.FFilterRoot(key, "q")
+				for _, cl := range calls([]jl.Frag{jl.FRoot(), jl.FChild("p"), f, jl.FChild("b")}, allOps, false) {
+					emit(3, jl.Obj("p", d, "q", q), cl)
+				}
+				for _, cl := range calls([]jl.Frag{jl.FRoot(), jl.FChild("p"), f, jl.FChild("n")}, []string{"Set", "SetOne"}, false) {
+					emit(3, jl.Obj("p", d, "q", q), cl)
+				}
+				for _, cl := range calls([]jl.Frag{jl.FRoot(), jl.FChild("p"), f}, []string{"Remove", "RemoveOne", "Modify", "ModifyOne"}, false) {
+					emit(3, jl.Obj("p", d, "q", q), cl)
+				}
+			}
+		}
+	}
+	for _, u := range [][]any{{-9, 0}, {0, 5}, {0, 9, 1}, {9, 0, 1}, {1, -9, 0}, {"a", "zz"}, {"a", "zz", "b"}, {"zz", "b", "a"}} {
+		for _, ct := range all {
+			place(jl.FUnion(u...), ct, allOps, allOps, false)
+		}
+	}
 	// creation along child/index paths, and requests that cannot be served
 	c := &ctr{n: 100}
 	docs := []jl.Node{jl.Obj(), jl.Arr(), jl.Obj("a", jl.Obj("b", jl.Int(1))), jl.Obj("a", jl.Arr(c.next(), c.next())), jl.Obj("a", jl.Int(5)),
